@@ -534,8 +534,10 @@ pub struct Node {
 
 pub const HOST: &str = "host";
 
-pub async fn spawn_node(idx: usize, name: &str, cookie: &str, max_frame: Option<u64>) -> Node {
-    let mut ns = NodeServer::new(0, cookie.to_string(), name.to_string(), HOST.to_string(), None, None);
+/// `full_name` is "name@host"
+pub async fn spawn_node(idx: usize, full_name: &str, cookie: &str, max_frame: Option<u64>) -> Node {
+    let (name, host) = full_name.split_once('@').unwrap_or((full_name, HOST));
+    let mut ns = NodeServer::new(0, cookie.to_string(), name.to_string(), host.to_string(), None, None);
     if let Some(m) = max_frame {
         ns = ns.with_max_inbound_frame_size(m);
     }
@@ -546,7 +548,7 @@ pub async fn spawn_node(idx: usize, name: &str, cookie: &str, max_frame: Option<
         .expect("subscribe");
     // mailbox barrier: subscription installed, listener port known
     let _ = ractor::call!(server, NodeServerMessage::GetSessions);
-    Node { idx, name: format!("{name}@{HOST}"), server, handle, events }
+    Node { idx, name: format!("{name}@{host}"), server, handle, events }
 }
 
 impl Node {
